@@ -473,3 +473,45 @@ package table
 //@   light
 //@   assert[tables-and-direction-kept] before return : result != nil && result.options == opt && result.tables == tbls && len(result.iters) == len(tbls) && result.idx == -1
 
+// ---- the table index and checksums (C18) ----
+
+// buildIndex: one block offset per block in block order, the bloom filter when there is one,
+// and the table's max version, key count and sizes as the builder counted them.
+//@ func (*Builder).buildIndex
+//@   props C18 C19 C11
+//@   light
+//@   assert[bloom-written-when-present] before call CreateByteVector : arg1 == bloom && len(bloom) > 0
+//@   assert[max-version-as-counted] before call TableIndexAddMaxVersion : arg1 == b.maxVersion
+//@   assert[key-count-as-counted] before call TableIndexAddKeyCount : arg1 == uint32(len(b.keyHashes))
+//@   assert[offsets-vector-of-all-blocks] before call TableIndexStartOffsetsVector : arg1 == len(ret0(writeBlockOffsets#1))
+//@   assert[filter-offset-recorded] before call TableIndexAddBloomFilter : len(bloom) > 0 ==> arg1 == ret(CreateByteVector#1)
+
+// writeBlockOffsets: block i starts where block i-1 ended.
+//@ func (*Builder).writeBlockOffsets
+//@   props C18
+//@   light
+//@   assert[block-start-is-sum-of-previous] before call writeBlockOffset : arg2 == bl && arg3 == startOffset
+
+//@ func (*Builder).writeBlockOffset
+//@   props C18
+//@   light
+//@   assert[first-key-of-block] before call CreateByteVector : arg1 == bl.baseKey
+//@   assert[offset-as-given] before call BlockOffsetAddOffset : arg1 == startOffset
+//@   assert[length-of-block] before call BlockOffsetAddLen : arg1 == uint32(bl.end)
+//@   assert[key-recorded] before call BlockOffsetAddKey : arg1 == ret(CreateByteVector#1)
+
+// Block.verifyCheckSum: the block's data (without checksum and its length) against the stored
+// checksum; Table.VerifyChecksum visits every block and verifies those not verified on read.
+//@ func (*Block).verifyCheckSum
+//@   props C18
+//@   light
+//@   assert[stored-checksum-decoded] before call Unmarshal : arg0 == b.checksum
+//@   assert[data-against-it] before call VerifyChecksum : arg0 == b.data && arg1 == cs && ret(Unmarshal#1) == nil
+
+//@ func (*Table).VerifyChecksum
+//@   props C18
+//@   light
+//@   assert[every-block] before call block : arg1 == i && i < ret(OffsetsLength#1)
+//@   assert[verified-unless-on-read] before call verifyCheckSum : !(t.opt.ChkMode == options.OnBlockRead || t.opt.ChkMode == options.OnTableAndBlockRead) && arg0 == ret0(block#1)
+//@   assert[mismatch-is-an-error] before return#2 : result != nil && ret(verifyCheckSum#1) != nil
+
